@@ -495,6 +495,10 @@ def call_lua_sandbox(
                         # The name may contain template calls and parser
                         # functions, as the name of a template argument
                         k = expander(k).strip()
+                        if is_positional_name(k):
+                            # the name turned out to be a number only
+                            # after it was expanded
+                            k = int(k)
                 else:
                     # unnamed parameter
                     k = num
